@@ -58,6 +58,42 @@ type Gate struct {
 	inflight int          // blocking calls (lock waits) in progress
 	Free     bool         // do not serialise calls (concurrency driver): effects interleave as the code lets them
 	H        *Holder      // optional hold point for one operation
+	Bar      *Barrier     // optional rendezvous: the calls with one label proceed together
+}
+
+// Barrier makes the first `want` calls with the given label wait for each other (at most 2 s): the schedule in which
+// the pieces of an operation that run in parallel reach that call - and everything after it - at the same moment.
+type Barrier struct {
+	mu    sync.Mutex
+	After bool // rendezvous when the call has been performed rather than before it
+	label string
+	want  int
+	n     int
+	ch    chan struct{}
+}
+
+func NewBarrier(label string, want int) *Barrier {
+	return &Barrier{label: label, want: want, ch: make(chan struct{})}
+}
+
+func (b *Barrier) Wait(label string) {
+	if b == nil || label != b.label {
+		return
+	}
+	b.mu.Lock()
+	b.n++
+	if b.n == b.want {
+		close(b.ch)
+	}
+	late := b.n > b.want
+	b.mu.Unlock()
+	if late {
+		return
+	}
+	select {
+	case <-b.ch:
+	case <-time.After(2 * time.Second):
+	}
 }
 
 func (g *Gate) Reset(failAt, crashAt int) {
@@ -132,8 +168,14 @@ func (g *Gate) Do(ctx context.Context, target, method string, args Event, blocki
 	if g.H != nil {
 		g.H.Point(ctx, target+"."+method)
 	}
+	if g.Bar != nil && !g.Bar.After {
+		g.Bar.Wait(target + "." + method)
+	}
 	if g.Free {
 		err := f()
+		if g.Bar != nil && g.Bar.After {
+			g.Bar.Wait(target + "." + method)
+		}
 		ev := Event{"ev": "Ext", "op": opOf(ctx), "target": target, "method": method, "class": class(err)}
 		for a, v := range args {
 			ev[a] = v
@@ -203,7 +245,8 @@ type Holder struct {
 	at      int
 	n       int
 	label   string
-	atLabel string // alternatively: park at the first point with this label
+	atLabel string // alternatively: park at the first point with this label ...
+	Skip    int    // ... after this many points with it have passed
 	parked  bool
 	Ctx     context.Context // the context the parked call was given
 	reached chan struct{}
@@ -220,7 +263,14 @@ func (h *Holder) Point(ctx context.Context, label string) {
 	}
 	h.mu.Lock()
 	h.n++
-	hit := (h.at != 0 && h.n == h.at) || (h.atLabel != "" && label == h.atLabel && !h.parked)
+	hit := h.at != 0 && h.n == h.at
+	if h.atLabel != "" && label == h.atLabel && !h.parked {
+		if h.Skip > 0 {
+			h.Skip--
+		} else {
+			hit = true
+		}
+	}
 	if hit {
 		h.label, h.parked, h.Ctx = label, true, ctx
 	}
@@ -648,6 +698,10 @@ func (s *storeW) UpdateNodes(ctx context.Context, ns ...*coretypes.Node) error {
 		names = append(names, n.Name)
 	}
 	return s.do(ctx, "UpdateNodes", Event{"nodes": names}, func() error { return s.Store.UpdateNodes(ctx, ns...) })
+}
+func (s *storeW) GetNodeStatus(ctx context.Context, name string) (st *coretypes.NodeStatus, err error) {
+	err = s.do(ctx, "GetNodeStatus", Event{"node": name}, func() error { st, err = s.Store.GetNodeStatus(ctx, name); return err })
+	return
 }
 func (s *storeW) SetNodeStatus(ctx context.Context, n *coretypes.Node, ttl int64) error {
 	return s.do(ctx, "SetNodeStatus", Event{"node": n.Name, "ttl": ttl}, func() error { return s.Store.SetNodeStatus(ctx, n, ttl) })
